@@ -5,7 +5,7 @@ import ast
 
 from ..lin import Lin
 from ..avals import *   # noqa
-from ..decide import Runs, need_ge0, need_eq0, definite, soft
+from ..decide import benign_unknown, Runs, need_ge0, need_eq0, definite, soft
 from ..report import Ob, PROVED, REFUTED, UNDECIDED, func_where, ASSUMPTIONS, Failure
 from ..model import norm_text, AnalysisError
 from ..units import exc_key
@@ -150,4 +150,4 @@ def check(prog, res, tier):
             return [definite('the operator report does not print err.record_number')]
         res.add(runs_p.judge('C10.d', 'print_exception_details prints the record number of the error', func_where(pfi),
                              "print(f'Error detected in record {err.record_number}')", chk_p, rule='C10.d.report',
-                             unknown_ok=lambda u: True))
+                             unknown_ok=benign_unknown))
